@@ -86,3 +86,23 @@ Example policy_example :
   /\ forwarded (Some p) {| c_service := Admin; c_name := "StreamWorkflowReplicationMessages"; c_stream := true |} [] = false
   /\ forwarded (Some {| p_methods := []; p_namespaces := [] |}) {| c_service := Workflow; c_name := "RegisterNamespace"; c_stream := false |} ["x"] = false.
 Proof. repeat split. Qed.
+
+(* listing namespaces returns exactly the allowed entries of the upstream response, in order *)
+Theorem list_filter_exact p names n :
+  In n (list_filter p names) <-> In n names /\ (p_namespaces p = [] \/ In n (p_namespaces p)).
+Proof. unfold list_filter. rewrite filter_In, is_allowed_spec. reflexivity. Qed.
+
+Fixpoint sublist {A} (l1 l2 : list A) : Prop :=
+  match l1, l2 with
+  | [], _ => True
+  | _ :: _, [] => False
+  | a :: t1, b :: t2 => (a = b /\ sublist t1 t2) \/ sublist l1 t2
+  end.
+
+Theorem list_filter_keeps_order p names : sublist (list_filter p names) names.
+Proof.
+  unfold list_filter. induction names as [|a t IH]; cbn; [exact I|].
+  destruct (is_allowed (p_namespaces p) a); cbn.
+  - left. split; [reflexivity|exact IH].
+  - destruct (filter (is_allowed (p_namespaces p)) t) eqn:E; [exact I|]. right. exact IH.
+Qed.
